@@ -766,16 +766,30 @@ func oneRun(seed int64, idx, rounds int, lag, geth bool) outcome {
 
 	r.bc = blockchain.New(memory.New(), &networks.Sepolia)
 	p := &provider{calls: make(chan *gcall)}
-	if geth {
-		r.node = &ethNode{r: r, calls: p.calls, done: make(chan struct{})}
+	// geth mode: every client incarnation gets its own in-process node endpoint (rpc server + websocket
+	// listener). A request the OLD client managed to put on the wire while it was being cancelled must
+	// never be taken for a call of the new one: closing the old endpoint releases its handlers.
+	var closeNode func()
+	openNode := func() {
+		if closeNode != nil {
+			closeNode()
+		}
+		node := &ethNode{r: r, calls: p.calls, done: make(chan struct{})}
 		rpcServer := rpc.NewServer()
-		if err := rpcServer.RegisterName("eth", r.node); err != nil {
+		if err := rpcServer.RegisterName("eth", node); err != nil {
 			panic(err)
 		}
-		r.httpSrv = httptest.NewServer(rpcServer.WebsocketHandler([]string{"*"}))
-		defer r.httpSrv.Close()
-		defer rpcServer.Stop()
-		defer close(r.node.done)
+		srv := httptest.NewServer(rpcServer.WebsocketHandler([]string{"*"}))
+		r.node, r.httpSrv = node, srv
+		closeNode = func() {
+			close(node.done)
+			srv.CloseClientConnections()
+			rpcServer.Stop()
+			srv.Close()
+		}
+	}
+	if geth {
+		defer func() { closeNode() }()
 	}
 	poll := []time.Duration{20 * time.Microsecond, 200 * time.Microsecond, 2 * time.Millisecond}[rng.Intn(3)]
 	listener := jl1.SelectiveListener{OnNewL1HeadCb: func(h *core.L1Head) {
@@ -889,6 +903,7 @@ func oneRun(seed int64, idx, rounds int, lag, geth bool) outcome {
 		ctx, cancel = context.WithCancel(context.Background())
 		var prov jl1.L1StateProvider = p
 		if geth {
+			openNode()
 			real, err := jl1.NewGethL1StateProvider(ctx, "ws"+strings.TrimPrefix(r.httpSrv.URL, "http"), eth.AddressFromString(coreContract))
 			if err != nil {
 				return "cannot connect the real GethL1StateProvider to the in-process node: " + err.Error()
